@@ -1,6 +1,8 @@
 package main
 
 import (
+	"bytes"
+	"compress/gzip"
 	"fmt"
 	"github.com/polydawn/rio/warehouse"
 	"github.com/polydawn/rio/warehouse/impl/kvfs"
@@ -462,6 +464,44 @@ func pickEngine(c *Ctx) {
 				c.PropFail("pick-holder-not-served", fmt.Sprintf("the list %v holds a content-addressed warehouse that has the ware (the same directory is also listed as a single-ware address, which lacks it); the fetch answered %s", l, r), op)
 			}
 		}
+	}
+	// a holder behind a server that compresses on the wire when asked to (nginx `gzip on`, a CDN): what the fetch yields is
+	// the object stored at the address, byte for byte — not its transfer encoding
+	{
+		object := bytes.Repeat([]byte("the stored object, compressible. "), 90)
+		gzsrv := httptest.NewServer(http.HandlerFunc(func(w http.ResponseWriter, r *http.Request) {
+			if !strings.HasSuffix(r.URL.Path, "/"+pickHash) && r.URL.Path != "/mono" {
+				http.NotFound(w, r)
+				return
+			}
+			if strings.Contains(r.Header.Get("Accept-Encoding"), "gzip") {
+				w.Header().Set("Content-Encoding", "gzip")
+				zw := gzip.NewWriter(w)
+				zw.Write(object)
+				zw.Close()
+				return
+			}
+			w.Write(object)
+		}))
+		for k, l := range [][]api.WarehouseLocation{
+			{api.WarehouseLocation("ca+http" + strings.TrimPrefix(gzsrv.URL, "http") + "/wh")},
+			{api.WarehouseLocation(env.deadURL + "/x"), api.WarehouseLocation(gzsrv.URL + "/mono")},
+		} {
+			op := fmt.Sprintf("pick-gzip-encoding %d", k)
+			c.EmitR(op, "skip", "skip")
+			rd, err := util.PickReader(api.WareID{Type: "tar", Hash: pickHash}, l, false, rio.Monitor{})
+			if err != nil {
+				c.PropFail("pick-holder-not-served", "a holder behind a compressing http server is not served: "+catOf(err), op)
+				continue
+			}
+			got, _ := io.ReadAll(rd)
+			rd.Close()
+			c.H(fmt.Sprintf("gzip-encoding:%v", bytes.Equal(got, object)))
+			if !bytes.Equal(got, object) {
+				c.PropFail("pick-wrong-warehouse", fmt.Sprintf("the fetch from a compressing http holder yields %d bytes starting %x; the object at the ware's address has %d bytes (the transfer encoding was handed on as the ware)", len(got), got[:min(4, len(got))], len(object)), op)
+			}
+		}
+		gzsrv.Close()
 	}
 	// a port no TCP endpoint can have is a malformed address, not a warehouse that happens to be down
 	{
